@@ -283,21 +283,24 @@ REGISTRY = {
 
 # clauses added after the seeded rounds (DESIGN.md 12.6 / 12.7)
 ADDED = {
-         'C04': ' Added clauses: R-MUST the cursor does not move between the insert-mode shift and the store; R-WIDTH only characters whose measured width is 0 / none are joined to the previous cell; R-MUSTFOOT printable characters are stored, wide ones with their empty placeholder whenever the next cell exists; the stored rendition is compared field-wise with the cursor rendition.',
-         'C06': ' Added clause: R-MUSTFOOT IL/DL rewrite every row from the cursor row to the bottom margin (a no-early-exit loop touching the row of its element covers that range). The parser\'s parameter fidelity (R-CAP: empty = 0, the pushed value is min(parsed number, 9999) - the number itself, not a narrowed copy) is part of the check, since the operation\'s numeric parameter arrives through it.',
-         'C07': ' Added clauses: R-MUSTFOOT every documented cell is erased (no-early-exit loop storing a cell per iteration covers the documented columns; ED: row loop with an inner all-columns loop plus EL for selectors 0/1); a removal from the grid is allowed only where the cursor rendition equals default_char() in that state. The parser\'s parameter fidelity (R-CAP: empty = 0, the pushed value is min(parsed number, 9999) - the number itself, not a narrowed copy) is part of the check, since the operation\'s numeric parameter arrives through it.',
+         'C04': ' Added clauses: R-MUST the cursor does not move between the insert-mode shift and the store; R-WIDTH only characters whose measured width is 0 / none are joined to the previous cell; R-MUSTFOOT printable characters are stored, wide ones with their empty placeholder whenever the next cell exists; the stored rendition is compared field-wise with the cursor rendition. The scroll rule of index (re-keying inside the region, the vacated row blank, also on a one-row screen) is part of the check: it is what a wrap at the bottom margin does to the grid.',
+         'C06': ' Added clause: R-MUSTFOOT IL/DL rewrite every row from the cursor row to the bottom margin (a no-early-exit loop touching the row of its element covers that range). The parser\'s parameter fidelity (R-CAP: empty = 0, the pushed value is min(parsed number, 9999) - the number itself, not a narrowed copy) is part of the check, since the operation\'s numeric parameter arrives through it. With it go the dispatch rows of this property\'s own finals (method and argument sources for 0..3 parameters, private or not) and the witnesses that nothing of an abandoned control sequence is carried into the next one.',
+         'C07': ' Added clauses: R-MUSTFOOT every documented cell is erased (no-early-exit loop storing a cell per iteration covers the documented columns; ED: row loop with an inner all-columns loop plus EL for selectors 0/1); a removal from the grid is allowed only where the cursor rendition equals default_char() in that state. The parser\'s parameter fidelity (R-CAP: empty = 0, the pushed value is min(parsed number, 9999) - the number itself, not a narrowed copy) is part of the check, since the operation\'s numeric parameter arrives through it. With it go the dispatch rows of this property\'s own finals (method and argument sources for 0..3 parameters, private or not) and the witnesses that nothing of an abandoned control sequence is carried into the next one.',
          'C08': ' Added clauses: after a reset inside a parameter list `reverse` is the DECSCNM bit of that path; what format! produces is decided from the decoded format template and the component bounds; the parser\'s SGR data path (`CSI .. m` hands the listener exactly the parameters of this sequence, in order, also after a cancelled / skipped earlier sequence) is part of the check. The parser\'s parameter fidelity (R-CAP: empty = 0, the pushed value is min(parsed number, 9999) - the number itself, not a narrowed copy) is part of the check, since the operation\'s numeric parameter arrives through it.',
          'C10': ' Added clauses: R-AGREE display() measures cell width as draw() does (char width of the first character of the cell text); rows/columns loops are recognised by the value of the iterated range in either loop or map/collect form, in display or its private helpers.',
          'C12': ' Added clauses: the mode set after SM/RM is decided on exactly known initial sets; DECCOLM remembers the width it leaves and returns to it; the SM/RM data path of the parser (numbers and private flag of this sequence only) is part of the check; DECCOLM erases the screen of the new geometry (the erase follows the last growth of the width). The parser\'s parameter fidelity (R-CAP: empty = 0, the pushed value is min(parsed number, 9999) - the number itself, not a narrowed copy) is part of the check, since the operation\'s numeric parameter arrives through it.',
-         'C13': ' Added clauses: R-MUSTFOOT every cell from the cursor column to the right edge is rewritten; blanks stored by helpers called from ICH/DCH are checked too. The parser\'s parameter fidelity (R-CAP: empty = 0, the pushed value is min(parsed number, 9999) - the number itself, not a narrowed copy) is part of the check, since the operation\'s numeric parameter arrives through it.',
-         'C16': ' Added clauses: the cursor ends on a cell of the new screen (x < columns); the DECCOLM round trip (remember / return / forget). The cells beyond the new width are pruned in every row: the retain is on every path through the body of a loop that walks all rows (no filtering adaptor).',
+         'C13': ' Added clauses: R-MUSTFOOT every cell from the cursor column to the right edge is rewritten; blanks stored by helpers called from ICH/DCH are checked too. The parser\'s parameter fidelity (R-CAP: empty = 0, the pushed value is min(parsed number, 9999) - the number itself, not a narrowed copy) is part of the check, since the operation\'s numeric parameter arrives through it. With it go the dispatch rows of this property\'s own finals (method and argument sources for 0..3 parameters, private or not) and the witnesses that nothing of an abandoned control sequence is carried into the next one. The grid-bounds rule is applied to every grid mutator (ICH / DCH rely on no cell living beyond the right edge of any row).',
+         'C16': ' Added clauses: the cursor ends on a cell of the new screen (x < columns); the DECCOLM round trip (remember / return / forget). The cells beyond the new width are pruned in every row: the retain is on every path through the body of a loop that walks all rows (no filtering adaptor). The grid-bounds rule over every grid mutator is part of the check (resize prunes beyond the new bounds and relies on nothing living beyond the current ones).',
          'C17': ' Added clauses: a row the cursor leaves inside a loop is marked before the next iteration; the mark after a loop must cover the pending row; rows written in a range loop may be marked by a range (or an insert loop over the range) after it.',
-         'C18': ' Added clauses: default stops may be installed by extend or by an insert loop over (8..columns).step_by(8); HTS/TBC fall back to a decision on exactly known stop sets when the operation is guarded differently; a counting `while` loop or a collected range is accepted for the reset stops on the value of the range. The parser\'s parameter fidelity (R-CAP: empty = 0, the pushed value is min(parsed number, 9999) - the number itself, not a narrowed copy) is part of the check, since the operation\'s numeric parameter arrives through it.',
+         'C18': ' Added clauses: default stops may be installed by extend or by an insert loop over (8..columns).step_by(8); HTS/TBC fall back to a decision on exactly known stop sets when the operation is guarded differently; a counting `while` loop or a collected range is accepted for the reset stops on the value of the range. The parser\'s parameter fidelity (R-CAP: empty = 0, the pushed value is min(parsed number, 9999) - the number itself, not a narrowed copy) is part of the check, since the operation\'s numeric parameter arrives through it. With it go the dispatch rows of this property\'s own finals (method and argument sources for 0..3 parameters, private or not) and the witnesses that nothing of an abandoned control sequence is carried into the next one.',
          'C01': ' Added clause: R-TERM for `while` loops with a comparison guard is a ranking argument read off the abstract paths through the body (the guard compares a local with a value the loop leaves alone and every path to the back edge moves the local towards it).',
-         'C19': ' Added clause: the streaming clause of C02/C11 (payloads and terminators cut inside a multi-byte character reach the recogniser unchanged) is part of the check.',
+         'C19': ' Added clause: the streaming clause of C02/C11 (payloads and terminators cut inside a multi-byte character reach the recogniser unchanged) is part of the check. Which code selects which setter is decided by running the extracted automaton on every code character 0-9 and letters with each terminator.',
          'C20': ' Added clauses: the 8-bit clause of C11; in UTF-8 mode no reached state of the recogniser lets SO / SI through to shift_in / shift_out (also inside a CSI or OSC).',
-         'C05': ' Added clause: The parser\'s parameter fidelity (R-CAP: empty = 0, the pushed value is min(parsed number, 9999) - the number itself, not a narrowed copy) is part of the check, since the operation\'s numeric parameter arrives through it.',
+         'C05': ' Added clause: The parser\'s parameter fidelity (R-CAP: empty = 0, the pushed value is min(parsed number, 9999) - the number itself, not a narrowed copy) is part of the check, since the operation\'s numeric parameter arrives through it. With it go the dispatch rows of this property\'s own finals (method and argument sources for 0..3 parameters, private or not) and the witnesses that nothing of an abandoned control sequence is carried into the next one.',
          'C09': ' Added clauses: colour values taken from a table are decided on the members of the evaluated table (documented names / 6-digit hex; palette entries rendered from the decoded format template), not on the table name; a whole-set replacement of the dirty set counts as a clear and what it installs must be rows of the screen.',
+         'C03': ' The byte front end is part of the check (8-bit mode: byte b reaches the recogniser as code point b, so that the C1 introducers and terminators are recognised; UTF-8 mode: one streaming decode per chunk).',
+         'C11': ' Added clause: the streaming decoder is built by a constructor that does not sniff a byte-order mark (a stream starting FF FE must not turn it into a UTF-16 decoder).',
+         'C02': ' The decoder constructor must not sniff a byte-order mark.',
 }
 for _k, _t in ADDED.items():
     REGISTRY[_k]['explanation'] = REGISTRY[_k]['explanation'] + _t
